@@ -16,7 +16,9 @@ open Burrow Burrow.Http Burrow.Generated
     differs only in password values — every handler returns the same response and the same world,
     for every backend, world, handler and path parameters (incl. dotted REQUEST names that reach into
     other parts of the configuration).  `Plain`: no configured key (module or profile name) itself
-    contains a dot; without it the statement is false of the code — `dotted_module_leak_witness`. -/
+    contains a dot (the one way in which the statement was false of the code without it, D20, is repaired:
+    `dotted_module_no_longer_leaks`; the scalar settings are still read through dotted keys, and the
+    general statement for configurations with dotted names is not proved). -/
 theorem handler_independent_of_passwords_partial {W : Type} (be : Backend W) (cfg' : W → Cfg) (w : W)
     (hpl : (be.cfg w).Plain)
     (h : SameExceptPasswords (be.cfg w) (cfg' w)) (ps : Params) (hh : H) :
@@ -48,33 +50,29 @@ def extraOf (r : Resp) : Option FieldVal :=
   | .module fs => fs.lookup "extra"
   | _ => none
 
-/-- **D20 (known finding).**  The full statement — for every configuration — is FALSE of the code: viper
-    resolves `notifier.a.extras` to the longest matching key, i.e. to the MODULE named `"a.extras"`, so
-    `GET /v3/config/notifier/a` shows that module's table, password included, as the `extra` map of
-    module `a`.  The two configurations below differ only in a password value and the responses differ.
-    (`notifierDetailAt c ["notifier", "a"]` is what `GET /v3/config/notifier/a` answers; replayed on the
-    real server by the `confhttp` stream, corpus `D20-…`.) -/
-theorem dotted_module_leak_witness :
+/-- **D20 (repaired).**  With notifier modules `a` and `"a.extras"`, viper resolves the key
+    `notifier.a.extras` to the longest matching key, i.e. to the MODULE named `"a.extras"`; the handler
+    used to show that module's whole table — password included — as the `extra` map of module `a`.
+    The extras are now read from the module's own table: for both passwords the `extra` map of `a` is
+    empty and the two responses agree.  (`notifierDetailAt c ["notifier", "a"] ["notifier", "a"]` is what
+    `GET /v3/config/notifier/a` answers; the old behaviour is pinned by the corpus case `D20-…`, which
+    now has to answer without the password.) -/
+theorem dotted_module_no_longer_leaks :
     SameExceptPasswords (leakCfg "hunter2") (leakCfg "correct horse") ∧
-    notifierDetailAt (leakCfg "hunter2") ["notifier", "a"] ≠ notifierDetailAt (leakCfg "correct horse") ["notifier", "a"] ∧
-    extraOf (notifierDetailAt (leakCfg "hunter2") ["notifier", "a"]) =
-      some (.m [("class-name", "email"), ("password", "hunter2")]) := by
-  have h1 : extraOf (notifierDetailAt (leakCfg "hunter2") ["notifier", "a"]) =
-      some (.m [("class-name", "email"), ("password", "hunter2")]) := by decide
-  have h2 : extraOf (notifierDetailAt (leakCfg "correct horse") ["notifier", "a"]) =
-      some (.m [("class-name", "email"), ("password", "correct horse")]) := by decide
-  refine ⟨⟨rfl, ?_⟩, ?_, h1⟩
-  · intro p hp
-    simp only [Cfg.get, leakCfg, List.lookup]
-    by_cases h1 : p = ["notifier", "a.extras", "password"]
-    · subst h1; simp [isPasswordPath] at hp
-    · have e1 : (p == ["notifier", "a.extras", "password"]) = false := by simpa using h1
-      simp [e1]
-  · intro heq
-    rw [heq, h2] at h1
-    exact absurd h1 (by decide)
+    extraOf (notifierDetailAt (leakCfg "hunter2") ["notifier", "a"] ["notifier", "a"]) = some (.m []) ∧
+    extraOf (notifierDetailAt (leakCfg "correct horse") ["notifier", "a"] ["notifier", "a"]) = some (.m []) ∧
+    -- the key-based lookup would still resolve to the other module: that is what the repair avoids
+    (leakCfg "hunter2").vLeaves ["notifier", "a", "extras"] = [("class-name", "email"), ("password", "hunter2")] := by
+  refine ⟨⟨rfl, ?_⟩, by decide, by decide, by decide⟩
+  intro p hp
+  simp only [Cfg.get, leakCfg, List.lookup]
+  by_cases h1 : p = ["notifier", "a.extras", "password"]
+  · subst h1; simp [isPasswordPath] at hp
+  · have e1 : (p == ["notifier", "a.extras", "password"]) = false := by simpa using h1
+    simp [e1]
 
-/-- … and `Plain` is exactly what that configuration lacks -/
+/-- `Plain` is what that configuration lacks (the non-interference theorems above still carry it: the
+    scalar settings are read through dotted keys) -/
 example : (leakCfg "x").plain = false := by decide
 
 /-- the scrape does not read the configuration at all -/
@@ -89,19 +87,20 @@ theorem no_password_key_read :
 
 /-- the only reads of package httpserver that return a whole TABLE (regenerated from the source on every
     run): the six kind tables, of which only the keys are shown (module lists) or tested
-    (`moduleConfigured`), and the `extras` map of a notifier module — which the model carries
-    (`Cfg.vLeaves`) and the differential run compares entry by entry.  A handler that starts
+    (`moduleConfigured`), and — from the notifier table — the `extras` map of the requested module
+    (`notifierExtras`, since the repair of D20; the model carries it as `Cfg.leavesUnder` of the
+    module's own table and the differential run compares it entry by entry).  A handler that starts
     returning another table (a new map-valued setting, a module's raw section) breaks this. -/
 theorem table_reads_are_the_modelled_ones :
     viperTableReads = ["GetStringMap \"cluster\"", "GetStringMap \"consumer\"", "GetStringMap \"evaluator\"",
-      "GetStringMap \"httpserver\"", "GetStringMap \"notifier\"", "GetStringMap \"storage\"", "GetStringMap _",
-      "GetStringMapString _+\".extras\""] := by decide
+      "GetStringMap \"httpserver\"", "GetStringMap \"notifier\"", "GetStringMap \"storage\"", "GetStringMap _"] := by decide
 
 /-- the field tables of the model read no key suffix that the source does not contain: every suffix
     the model's handlers read is one of the generated literals (a handler that starts reading a new
     key makes the differential disagree; a literal that disappears breaks this) -/
 theorem model_reads_only_source_literals :
-    ((storageFields ++ evaluatorFields ++ clusterFields ++ consumerFields ++ notifierHTTP ++ notifierSlack ++ notifierEmail).all
+    (((storageFields ++ evaluatorFields ++ clusterFields ++ consumerFields ++ notifierHTTP ++ notifierSlack ++ notifierEmail).filter
+        fun f => f.2.2 != .mapSS).all   -- the extras table is indexed out of the notifier table, not asked of viper by key
       fun f => viperKeyLiterals.contains ("." ++ f.2.1)) = true := by decide
 
 /-- non-vacuity: two configurations that differ in a SASL and a notifier password are related, and a
